@@ -31,8 +31,9 @@ MANIFEST = dict(
 MODULE = "IwModel.Props.C13"
 THEOREMS = [
     "IwModel.C13.unescape_two_pass", "IwModel.C13.string_spellings", "IwModel.C13.integer_exact",
-    "IwModel.C13.parse_render_partial", "IwModel.C13.key_nul_truncated", "IwModel.C13.utf8_roundtrip",
-    "IwModel.C13.generated_ok",
+    "IwModel.C13.parse_render_partial", "IwModel.C13.string_roundtrip", "IwModel.C13.print_valid",
+    "IwModel.C13.print_ascii", "IwModel.C13.parse_print_partial", "IwModel.C13.key_nul_truncated",
+    "IwModel.C13.utf8_roundtrip", "IwModel.C13.generated_ok",
 ]
 
 H = lambda b: binascii.hexlify(bytes(b)).decode() or "-"
